@@ -103,6 +103,7 @@ class MacroTag(Tag):
     """The built-in _macro_ tag."""
 
     name = "macro"
+    end = "endmacro"
     node_class = MacroNode
 
     def parse(self, stream: TokenStream) -> Node:
